@@ -976,6 +976,14 @@ def cache_fft(time_series, ij, lb=0, ub=None,
     lb_idx, ub_idx = utils.get_bounds(freqs, lb, ub)
 
     n_freqs = ub_idx - lb_idx
+
+    # The DC and (for even NFFT) the Nyquist components are the ones that are
+    # not doubled in a one-sided spectrum. Keep track of where they are in the
+    # cached band (if they are in it at all):
+    edge_bins = [0, NFFT // 2] if NFFT % 2 == 0 else [0]
+    edge_idx = np.array([k - lb_idx for k in edge_bins
+                         if lb_idx <= k < ub_idx], dtype=int)
+
     # Make the window:
     if np.iterable(window):
         assert(len(window) == NFFT)
@@ -1023,7 +1031,8 @@ def cache_fft(time_series, ij, lb=0, ub=None,
             FFT_conj_slices[i_channel] = np.conjugate(Slices)
 
     cache = {'FFT_slices': FFT_slices, 'FFT_conj_slices': FFT_conj_slices,
-             'norm_val': norm_val, 'Fs': Fs, 'scale_by_freq': scale_by_freq}
+             'norm_val': norm_val, 'Fs': Fs, 'scale_by_freq': scale_by_freq,
+             'edge_idx': edge_idx}
 
     return freqs[lb_idx:ub_idx], cache
 
@@ -1070,10 +1079,13 @@ def cache_to_psd(cache, ij):
         # If there is more than one window
         if FFT_slices[i].shape[0] > 1:
             Pxx[i] = np.mean(Pxx[i], 0)
+        else:
+            Pxx[i] = Pxx[i][0]
 
         Pxx[i] /= norm_val
-        # Correct for the NFFT/2 and DC components:
-        Pxx[i][[0, -1]] /= 2
+        # Correct for the NFFT/2 and DC components (where they are part of
+        # the cached band):
+        Pxx[i][cache['edge_idx']] /= 2
 
     return Pxx
 
